@@ -33,11 +33,16 @@ CFG = {"tcp": "socket", "unix": "socket", "ws": "socket", "udp": "udp"}
 # ------------------------------------------------------------------------------------ hook detection / build
 
 def hook_present():
+    """the tree under test carries the whole of hooks/c09c10-transports.patch: the hook files AND the call lines"""
     for pkg in ("socket", "websocket", "udp"):
-        p = os.path.join(hv.REPO, "rpc", pkg, "verif_on.go")
         try:
-            if "VerifEventHook" not in open(p).read():
+            if "VerifEventHook" not in open(os.path.join(hv.REPO, "rpc", pkg, "verif_on.go")).read():
                 return False
+            src = open(os.path.join(hv.REPO, "rpc", pkg, "transport.go")).read()
+            for needle in ('verifYield("before-store"', 'verifEvent("store"', 'verifEvent("loadAndDelete"', 'verifEvent("clean-done"',
+                           'verifYieldErr("before-onExit"', 'verifYield("dequeued"'):
+                if needle not in src:
+                    return False
         except OSError:
             return False
     return True
@@ -73,9 +78,19 @@ def gen_peer_case(rng, cid, transport, hook):
     steps = []
     for k in ks:
         # unanswered callers get a short deadline; the others the default
-        steps.append(["call", k, 250 if k in unanswered else 0])
+        steps.append(["call", k, 250 if k in unanswered else 2500])
     steps.append(["await_recv", n, 3000])
     extras = {"strays": 0, "dups": 0}
+    cancelled = []
+    if rng.random() < 0.35 and len(seq) >= 2:
+        # some callers give up (context cancelled) while their neighbours are still pending; the neighbours are answered afterwards
+        cancelled = [k for k in seq if rng.random() < 0.4][:len(seq) - 1]
+        for k in cancelled:
+            steps.append(["cancel", k])
+        for k in cancelled:
+            steps.append(["await_ret", k, 2000])
+        seq = [k for k in seq if k not in cancelled]
+        answered = [k for k in answered if k not in cancelled]
     for k in seq:
         r = rng.random()
         if r < 0.18:
@@ -99,7 +114,7 @@ def gen_peer_case(rng, cid, transport, hook):
     steps.append(["sleep", 20])
     steps.append(["probe", "end"])
     return {"id": cid, "fam": "peer", "transport": transport, "peer": "script", "steps": steps, "hook": False,
-            "n": n, "order": order, "unanswered": unanswered, **extras}
+            "n": n, "order": order, "unanswered": unanswered, "cancelled": cancelled, **extras}
 
 
 def gen_svc_case(rng, cid, transport):
@@ -473,6 +488,10 @@ def oracle(case, obs):
     serr = [e for e in log if e["e"] == "script-error" and "no request of caller" in e.get("s", "")]
     if serr:
         return ("c09:%s:request-not-delivered" % t, "%s: %s although the connection was healthy and the caller was waiting" % (t, serr[0]["s"]))
+    perr = [e for e in log if e["e"] == "prov-error"]
+    if perr:
+        return ("c09:rev:provider-call-failed", "reverse: a scripted provider's call to the Caller failed: %s (a result that nobody waits for must be "
+                "dropped, not block the '=' call)" % perr[0].get("s", "")[:120])
     # 1. nobody returns somebody else's reply, a stray or a made-up body
     for k, r in sorted(res.items(), key=lambda kv: int(kv[0])):
         if r.startswith("other:") or r.startswith("resp:"):
@@ -639,6 +658,11 @@ def evaluate(ctx, cases, byid, hook):
             env += 1
             continue
         if o.get("note") and not o.get("log"):
+            continue
+        other_err = [e for e in o["log"] if e["e"] == "script-error" and "no request of caller" not in e.get("s", "")]
+        if other_err:
+            ctx.report("harness:script-error", "a scenario step could not be executed: %s (hook files present but inoperative?)" % other_err[0].get("s"),
+                       {"case": c, "failing_input": False, "correspondence": "executor vs verif hooks"})
             continue
         ops, expect = ops_from_log(c, o)
         lines.append(" ".join(ops))
